@@ -13,6 +13,9 @@ tier = os.environ.get('RESEED_TIER', 'quick')
 for p in props:
     if subprocess.run(['git', '-C', '/repo', 'diff', '--quiet']).returncode != 0:
         print('/repo dirty'); sys.exit(2)
+    # the evidence file describes the unchanged tree: keep it across the run against the change
+    evp = os.path.join(VERIF, 'evidence', p + '.json')
+    evidence_backup = open(evp).read() if os.path.exists(evp) else None
     subprocess.run(['git', '-C', '/repo', 'apply', os.path.join(dst, 'patch.diff')], check=True)
     t0 = time.time()
     try:
@@ -22,6 +25,8 @@ for p in props:
     finally:
         subprocess.run(['git', '-C', '/repo', 'checkout', '--', '.'])
         subprocess.run(['git', '-C', '/repo', 'clean', '-fdq'])
+        if evidence_backup is not None:
+            open(evp, 'w').write(evidence_backup)
     replay = None
     for m in re.finditer(r'replay=(\S+)', '\n'.join(lines)):
         if os.path.exists(m.group(1)):
